@@ -876,6 +876,45 @@ func run(r *hx.Run) error {
 		}
 		runCase(r, kind, next(), start, ops)
 	}
+	// ---- round 3: the scrolled case of textinput.Draw (kind ti) ----
+	// texts of narrow, wide and mixed graphemes longer than the window; every window width 1..12 (thorough: ..16), prompts
+	// of width 0, 1, 2 (one wide grapheme) and 2 (two narrow); the cursor walks from the end to the beginning and
+	// back with a Draw after every step, so the offset goes through both scroll directions (forward loop, "scroll
+	// toward the beginning", reset when the line fits); once more in password mode.  Model and implementation are
+	// compared cell by cell and on the cursor column (Props.C17Ext.textinput_cells_scrolled / textinput_cursor_scrolled
+	// are statements about that model), incl. the narrow windows of Witness/F517.
+	{
+		texts := [][]int{{0, 1, 0, 1, 0, 1, 0, 1}, {3, 3, 3, 3, 3, 3}, {0, 3, 1, 3, 0, 3}, {3, 0, 0, 3, 3, 0, 1}, {3, 3, 3, 3}, {0, 1, 0, 1}}
+		prompts := []string{"-", "0", "3", "0,1"}
+		maxW := 12
+		if r.Thorough {
+			maxW = 16
+			texts = append(texts, []int{5, 0, 5, 3, 11, 0, 3, 3, 0}, []int{0, 1, 7, 6, 0, 1, 7, 6, 0, 1, 7, 6})
+		}
+		for ti, text := range texts {
+			for w := 1; w <= maxW; w++ {
+				for pi, p := range prompts {
+					var ops [][]string
+					if (ti+w+pi)%5 == 0 {
+						ops = append(ops, []string{"mask"})
+					}
+					ws := strconv.Itoa(w)
+					ops = append(ops, []string{"draw", ws, p})
+					for k := 0; k < len(text); k++ {
+						ops = append(ops, tiKeyOp("Left"), []string{"draw", ws, p})
+					}
+					for k := 0; k < len(text); k++ {
+						ops = append(ops, tiKeyOp("Right"), []string{"draw", ws, p})
+					}
+					// jump: End, then Home, then into the middle, in a window one column wider / narrower
+					ops = append(ops, tiKeyOp("Home"), []string{"draw", ws, p}, tiKeyOp("Ctrl+e"), []string{"draw", strconv.Itoa(w + 1), p},
+						tiKeyOp("Left"), tiKeyOp("Left"), []string{"draw", ws, p})
+					runCase(r, "ti", next(), text, ops)
+					r.Count("ti scrolled-draw case")
+				}
+			}
+		}
+	}
 	// ---- word motions of textinput over mixed separators (kind ti) ----
 	// every start of length <= 4 over {letter, space, '.', '-', wide letter, ZWJ emoji} (thorough: + flag, Cyrillic letter,
 	// word joiner; a typed tab is 8 spaces to vaxis.Characters, so a tab never is a grapheme of the text),
